@@ -142,6 +142,9 @@ pub fn run_c05(a: &Args) {
     st.rule = "scripted sessions on the real blocking and tokio Framed: all compositions of short multi-frame streams, every pool frame byte-by-byte, random sessions of 1..600 frames (all 73 kinds, keep-alives, version packets, undecodable and unknown-type frames) cut by 6 partition styles with injected transient errors/timeouts; distinct = distinct (frames, script); non-trivial = >= 2 frames and at least one read that is not frame-aligned".into();
     st.notes.push(format!("read slice sizes offered by the connections: min {} max {} bytes (buffer capacity 6120)", run.min_offered, run.max_offered));
     st.sample("session C 1 f:030000:K:0 f:030703:O:1 | D0103 D0000 D01030703 Z  ->  W01030000 P0 P1 DC".into());
+    // the same independence with the caller's own write() / handshake() calls in between, and (tokio) with dropped read() futures
+    { let c1 = crate::conv::sync_conversations("C05", a, &mut rng, "ka", &mut st, &mut out); let c2 = crate::conv::async_conversations("C05", a, &mut rng, &mut st, &mut out); st.distinct_nontrivial += (c1.distinct.len() + c2.distinct.len()) as u64; }
+    crate::net::report_unconsumed("C05", &mut st);
     out.finish(&st);
 }
 
@@ -185,6 +188,7 @@ pub fn run_c07(a: &Args) {
             for _ in 0..depth { frames.push(alpha[c % n].clone()); c /= n; }
             let fr = Frames::new(compressed, frames); let idx = RepIndex::new(&fr);
             let stream = fr.stream();
+            if stream.len() < 2 { continue; }
             let cut = 1 + (code * 7) % (stream.len() - 1);
             let evs = vec![REv::Data(stream[..cut].to_vec()), REv::Data(stream[cut..].to_vec()), REv::Eof];
             run.session("C07", &fr, &idx, false, &evs, &mut st, &mut out, code % 3 == 0 || !a.thorough());
@@ -236,6 +240,7 @@ pub fn run_c07(a: &Args) {
         st.notes.push(format!("websocket keep-alive burst ({} mode): {sent} sent, {handed} handed over, {replies} replies seen by the peer", mode_tag(compressed)));
       } }
     { let c1 = crate::conv::sync_conversations("C07", a, &mut rng, "ka", &mut st, &mut out); let c2 = crate::conv::async_conversations("C07", a, &mut rng, &mut st, &mut out); st.distinct_nontrivial += (c1.distinct.len() + c2.distinct.len()) as u64; }
+    crate::net::report_unconsumed("C07", &mut st);
     out.finish(&st);
 }
 
@@ -268,6 +273,18 @@ pub fn run_c09(a: &Args) {
                 }
             }
         }
+        // an IS_VER frame longer than its 20 bytes (trailing bytes inside the announced frame are ignored by the decoder): the gate decides
+        // by the InSim version alone; frame lengths 24 .. 84 incl. the one whose compressed size byte is 20
+        for extra in [4usize, 8, 56, 60, 64] { for v in [0u8, 8, 9, 10, 255] { for verify in [true, false] {
+            let mut f = mk(v); f.extend(vec![0u8; extra]); f[0] = size_byte(compressed, f.len());
+            if !compressed && f.len() > 255 { continue; }
+            let fr = Frames::new(compressed, vec![f.clone(), mk(9)]); let idx = RepIndex::new(&fr);
+            if fr.frames.len() != 2 { st.fail(format!("[C09] an IS_VER frame of {} bytes is not one complete frame for the decoder", f.len()), hex(&f)); continue; }
+            if fr.class[0] != Class::Ver(v) && fr.class[0] != Class::Err { st.fail(format!("[C09] an IS_VER frame of {} bytes reporting InSim version {v} is classified {:?}", f.len(), fr.class[0]), hex(&f)); }
+            let evs = vec![REv::Data(fr.stream()), REv::Eof];
+            run.session("C09", &fr, &idx, verify, &evs, &mut st, &mut out, true);
+            st.bump("over-long IS_VER frames");
+        } } }
         // the spare byte behind InSimVer must not matter: all 256 versions x spare 1 / 9 / 128 / 255 x on / off
         for v in 0..=255u8 { for sp in [1u8, 9, 128, 255] { for verify in [true, false] {
             if v % 4 != sp % 4 && !a.thorough() && v != 9 && v != 8 { continue; }
@@ -318,6 +335,7 @@ pub fn run_c09(a: &Args) {
     st.rule = "sessions on the real blocking and tokio Framed: Ver frames with every insimver 0..255, verification on and off, alone and inside histories of other kinds; every other kind with verification on; distinct sessions counted (each run on both connections)".into();
     st.sample("session U 1 f:<ver insimver=8>:V8:0 | D.. Z -> BV8 DC".into());
     { let c1 = crate::conv::sync_conversations("C09", a, &mut rng, "ver", &mut st, &mut out); st.distinct_nontrivial += c1.distinct.len() as u64; }
+    crate::net::report_unconsumed("C09", &mut st);
     out.finish(&st);
 }
 
@@ -430,6 +448,7 @@ pub fn run_c06(a: &Args) {
         st.notes.push(format!("websocket back-pressure run ({} mode): {} writes, {} waited, {} messages compared", mode_tag(compressed), want.len(), waited, m));
       } }
     { let mut r2 = Rng::new(a.seed ^ 0xC06); let c1 = crate::conv::sync_conversations("C06", a, &mut r2, "ka", &mut st, &mut out); let c2 = crate::conv::async_conversations("C06", a, &mut r2, &mut st, &mut out); st.distinct_nontrivial += (c1.distinct.len() + c2.distinct.len()) as u64; }
+    crate::net::report_unconsumed("C06", &mut st);
     out.finish(&st);
 }
 
